@@ -4,6 +4,7 @@ package checks
 import (
 	"crypto"
 	"fmt"
+	"github.com/wokdav/gopki/generator/db"
 	"os"
 	"path/filepath"
 	"sort"
@@ -204,3 +205,5 @@ func signerPublic(k any) any {
 	}
 	return nil
 }
+
+func dbStrat(s int) db.UpdateStrategy { return db.UpdateStrategy(s) }
